@@ -1,11 +1,11 @@
-\* C03 quick: triples (transitivity): revision absent/0, upstream <= 2 characters over 0 1 a ~
-\* (40 versions, 64 000 triples)
+\* C03 quick: triples (transitivity): revision absent/0, upstream <= 2 characters over 0 1 ~
+\* (24 versions, 13 824 triples)
 CONSTANTS
   HashOnString = FALSE
   TildeOrderZero = FALSE
   Epochs <- S_none
   Revs <- R_two
-  UpChars = {48, 49, 97, 126}
+  UpChars = {48, 49, 126}
   MaxUp = 2
   Seps = FALSE
   Triples = TRUE
